@@ -243,6 +243,10 @@ class SimTransport(asyncio.Transport):
         if hook is not None:
             hook(self.conn)
         if self._closing:
+            if not self.conn.client_closed and not getattr(self.conn, "dead_close_seen", False):
+                # the client lets go of a connection that is already dead (first time only): the start of its tear-down
+                self.conn.dead_close_seen = True
+                self.conn.net.event(("deadclose", self.conn.cid))
             return
         self._closing = True
         self.conn.client_closed = True
